@@ -142,12 +142,12 @@ def run_unit(u, tier, root, build):
     for h in hs:
         cmd += ['--harness', h['name']]
     res['cmds'] = [' '.join(cmd) + '   (cwd=%s, RUSTFLAGS=%r)' % (crate, rf)]
-    try:
-        p = subprocess.run(cmd, cwd=crate, env=env, capture_output=True, text=True, timeout=u.get('timeout', 1800))
-    except subprocess.TimeoutExpired:
-        res['undecided'] = 'cargo kani timed out after %d s' % u.get('timeout', 1800)
+    rc, so, se = _run_group(cmd, crate, env, u.get('timeout', 1800))
+    if rc is None:
+        res['undecided'] = 'cargo kani timed out after %d s (solver budget exceeded: undecided, not a violation)' % u.get('timeout', 1800)
+        res['wall_s'] = time.time() - t0
         return res
-    out = p.stdout + '\n' + p.stderr
+    out = so + '\n' + se
     parsed = parse_kani_output(out)
     if not parsed:
         res['undecided'] = 'cargo kani produced no harness results (build error?): ' + out[-2500:]
@@ -188,6 +188,25 @@ def run_unit(u, tier, root, build):
     return res
 
 
+def _run_group(cmd, cwd, env, timeout):
+    """run in its own process group so that a timeout also kills cbmc children"""
+    import signal
+    p = subprocess.Popen(cmd, cwd=cwd, env=env, stdout=subprocess.PIPE, stderr=subprocess.PIPE, text=True, start_new_session=True)
+    try:
+        so, se = p.communicate(timeout=timeout)
+        return p.returncode, so, se
+    except subprocess.TimeoutExpired:
+        try:
+            os.killpg(p.pid, signal.SIGKILL)
+        except Exception:
+            pass
+        try:
+            p.communicate(timeout=10)
+        except Exception:
+            pass
+        return None, '', ''
+
+
 def _write_if_changed(path, text):
     if os.path.exists(path) and open(path).read() == text:
         return
@@ -214,11 +233,10 @@ def _concrete_playback(u, h, crate, env, f, root, build):
     natively against the real code in /verif/replay."""
     cmd = ['cargo', 'kani', '-Z', 'stubbing', '-Z', 'function-contracts', '-Z', 'concrete-playback',
            '--concrete-playback=print', '--harness', h['name']] + u.get('kani_args', [])
-    try:
-        p = subprocess.run(cmd, cwd=crate, env=env, capture_output=True, text=True, timeout=u.get('timeout', 1800))
-    except subprocess.TimeoutExpired:
+    rc, so, se = _run_group(cmd, crate, env, min(u.get('timeout', 1800), 900))
+    if rc is None:
         return
-    out = p.stdout + p.stderr
+    out = so + se
     vals = None
     # one test per failing check AND per satisfied cover: take a failing check's test
     for blk in re.split(r'Concrete playback unit test for', out)[1:]:
